@@ -183,6 +183,7 @@ func (node *mastNode) store(
 	cache NodeCache,
 	marshal func(interface{}) ([]byte, error),
 	storeQ chan func() error,
+	commits *[]func(),
 ) (string, error) {
 	if !node.dirty {
 		if debugMutation && node.expected != nil {
@@ -208,7 +209,10 @@ func (node *mastNode) store(
 		}
 	}
 
+	// The node itself is left untouched until every write of this flush has
+	// succeeded (see commits), so that a failed flush leaves the tree usable.
 	linkCount := 0
+	links := make([]interface{}, len(node.Link))
 	for i, il := range node.Link {
 		if il == nil {
 			continue
@@ -216,18 +220,19 @@ func (node *mastNode) store(
 		linkCount++
 		switch l := il.(type) {
 		case string:
-			break
+			links[i] = l
 		case *mastNode:
-			newLink, err := l.store(ctx, persist, cache, marshal, storeQ)
+			newLink, err := l.store(ctx, persist, cache, marshal, storeQ, commits)
 			if err != nil {
 				return "", fmt.Errorf("flush: %w", err)
 			}
-			node.Link[i] = newLink
+			links[i] = newLink
 		default:
 			return "", fmt.Errorf("don't know how to flush link of type %T", l)
 		}
 	}
 	trimmed := *node
+	trimmed.Link = links
 	if linkCount == 0 {
 		trimmed.Link = nil
 	}
@@ -243,13 +248,28 @@ func (node *mastNode) store(
 			return hash, nil
 		}
 	}
+	// What other trees get from the cache is a private, already-clean copy:
+	// this node may still be written (by commits, or by its tree after a
+	// failed flush) after the worker has published it.
+	var cached *mastNode
+	if cache != nil {
+		cached = &mastNode{
+			Node: Node{
+				Key:   append([]interface{}{}, node.Key...),
+				Value: append([]interface{}{}, node.Value...),
+				Link:  links,
+			},
+			shared: true,
+			source: &hash,
+		}
+	}
 	storeQ <- func() error {
-		err = persist.Store(ctx, hash, encoded)
+		err := persist.Store(ctx, hash, encoded)
 		if err != nil {
 			return fmt.Errorf("persist store: %w", err)
 		}
 		if cache != nil {
-			cache.Add(cacheKey, node)
+			cache.Add(cacheKey, cached)
 		}
 		return nil
 	}
@@ -259,11 +279,14 @@ func (node *mastNode) store(
 		panic(fmt.Errorf("whoa, somebody modified %v==>%v after loading (keys were %v, became %v)",
 			*node.source, hash, node.expected.Key, node.Key))
 	}
-	node.dirty = false
-	if debugMutation {
-		node.expected = node.xcopy()
-	}
-	node.source = &hash
-	node.shared = true
+	*commits = append(*commits, func() {
+		copy(node.Link, links)
+		node.dirty = false
+		if debugMutation {
+			node.expected = node.xcopy()
+		}
+		node.source = &hash
+		node.shared = true
+	})
 	return hash, nil
 }
